@@ -403,7 +403,13 @@ static void print_json(const char *mode, bool ok, long states, const std::string
 
 static std::string json_escape(const std::string &s) {
     std::string o;
-    for (char c : s) { if (c == '"' || c == '\\') { o += '\\'; o += c; } else if (c == '\n') o += "\\n"; else o += c; }
+    for (char c : s) {
+        unsigned char uc = (unsigned char)c;
+        if (c == '"' || c == '\\') { o += '\\'; o += c; }
+        else if (c == '\n') o += "\\n";
+        else if (uc < 0x20 || uc >= 0x7f) { char b[8]; snprintf(b, sizeof b, "\\u%04x", uc); o += b; }     // keep the JSON pure ASCII
+        else o += c;
+    }
     return o;
 }
 
